@@ -524,7 +524,19 @@ impl<R: Read, TSpec> TagIterator<R, TSpec>
         while let Some(child) = iter.next() {
             if let Some(Master::Start) = child.as_master() {
                 let child_id = child.get_id();
-                let subchildren = iter.by_ref().take_while(|c| !matches!(c.as_master(), Some(Master::End)) || c.get_id() != child_id).collect();
+                // The matching end is the first one that isn't preceded by an unmatched start of the same tag id (masters can be nested in themselves)
+                let mut nested = 0;
+                let subchildren = iter.by_ref().take_while(|c| {
+                    if c.get_id() == child_id {
+                        match c.as_master() {
+                            Some(Master::Start) => nested += 1,
+                            Some(Master::End) if nested == 0 => return false,
+                            Some(Master::End) => nested -= 1,
+                            _ => {},
+                        }
+                    }
+                    true
+                }).collect();
                 rolled_children.push(Self::roll_up_children(child_id, subchildren));
             } else {
                 rolled_children.push(child);
